@@ -243,12 +243,12 @@ func Corpus(c *Ctx) []*FileSpec {
 		b := Msg("Beta", F("item", 1, Opt, FullName(pkg, "Beta", "Item")))
 		b.NestedType = append(b.NestedType, Msg("Item", F("y", 1, Opt, "string")))
 		f.MessageType = append(f.MessageType, a, b)
-		add("namesnested", "nested-messages-sharing-a-short-name", false, f)
+		add("namesnested", "nested-messages-sharing-a-short-name", true, f)
 	}
 	{
 		f := c.File("namescase", "proto3")
 		f.MessageType = append(f.MessageType, Msg("Widget", F("x", 1, Opt, "int32")), Msg("WIDGET", F("y", 1, Opt, "string")))
-		add("namescase", "message-names-differing-by-case", false, f)
+		add("namescase", "message-names-differing-by-case", true, f)
 	}
 
 	// ---- required fields in every position ----
